@@ -4,7 +4,7 @@ from ..cfg import cfg_of, single_def
 from ..dataflow import operand_root, root_local, call_sites
 from ..facts import callee
 from ..tables import enum_switches, arm_regions
-from ..callgraph import body_refs, family
+from ..callgraph import body_refs, family, iter_operands_rvalue
 
 SRC_BINOP = 'samlang_ast::source::expr::BinaryOperator'
 SRC_BINARY = 'samlang_ast::source::expr::Binary'
@@ -539,6 +539,40 @@ def run_paren_sink(prog, tier, repo):
     if not plain:
         res.cannot_decide('the plain expression printer called by the decider')
         return [res]
+    # the parenthesiser: the function the decider applies to the plain printer's result in its add-parentheses branch
+    wrappers = set()
+    for bl in dec.blocks:
+        t = bl.term
+        if t[0] == 'call' and not bl.cleanup and callee(t)[0] in plain and t[4] is not None:
+            for bl2 in dec.blocks:
+                t2 = bl2.term
+                if t2[0] == 'call' and not bl2.cleanup and callee(t2)[0] and callee(t2)[0] not in plain and any(
+                        o[0] in ('c', 'm') and operand_root(dec, o)[0] == t[4].local for o in t2[3]):
+                    wrappers.add(callee(t2)[0])
+
+    def always_wrapped(b, t):
+        # the plain printer's result is consumed by a call of the parenthesiser and by nothing else
+        if not wrappers or t[4] is None or t[4].proj:
+            return False
+        dl, uses, wrapped = t[4].local, 0, 0
+        for bl2 in b.blocks:
+            if bl2.cleanup:
+                continue
+            for st in bl2.stmts:
+                if st[0] == 'a':
+                    for o in iter_operands_rvalue(st[2]):
+                        if o[0] in ('c', 'm') and o[1].local == dl:
+                            uses += 1
+                    if st[2][0] in ('ref',) and st[2][2].local == dl:
+                        uses += 1
+            t2 = bl2.term
+            if t2[0] == 'call':
+                for o in t2[3]:
+                    if o[0] in ('c', 'm') and o[1].local == dl:
+                        uses += 1
+                        if callee(t2)[0] in wrappers:
+                            wrapped += 1
+        return uses == wrapped == 1
     reached = {}
     for b in prog.bodies.values():
         if b.crate != 'samlang_printer' or b.id == dec.id:
@@ -564,6 +598,12 @@ def run_paren_sink(prog, tier, repo):
             for o in eargs:
                 r, p = operand_root(b, o)
                 fs = [e for e in p if e[0] == 'f']
+                if fs and always_wrapped(b, t):
+                    pos = (prog.adts[fs[-1][1]].name.split('::')[-1], fs[-1][4])
+                    nth = sum(1 for i in res.instances if i.key.startswith(f'sink:{b.name}:{pos[0]}.{pos[1]}:parenthesised')) + 1
+                    res.ok(f'sink:{b.name}:{pos[0]}.{pos[1]}:parenthesised#{nth}', b.loc(t[7]), 'printed plainly, but the result is '
+                           'handed straight to the parenthesiser: always delimited')
+                    continue
                 if fs:
                     pos = (prog.adts[fs[-1][1]].name.split('::')[-1], fs[-1][4])
                     if pos in (('Binary', 'e1'), ('Binary', 'e2')):
